@@ -273,6 +273,51 @@ def r17_5(ctx: Ctx) -> RuleResult:
             rr.bad(fn, n, f"compile_rules writes `{short(n)}`: the rule table must be returned, not remembered", construct=short(n))
     if not shared and not stores:
         rr.ok(fn.loc(), "compile_rules reads only its own patterns and self.env's tokens and writes nothing")
+    # the same for the constructors on the way: an environment gets a lexer and a parser of its own - none of them
+    # may put what it builds into (or take it from) a container shared by all instances
+    mutators = {"setdefault", "update", "append", "add", "extend", "insert", "pop", "popitem", "clear", "__setitem__"}
+    for qn in ("JSONPathEnvironment.__init__", "Lexer.__init__", "Parser.__init__"):
+        f2 = ctx.repo.get_func(qn)
+        if f2 is None:
+            continue
+        c2 = f2.cls
+
+        def holder_of(n: ast.AST, f2=f2, c2=c2) -> Optional[ast.AST]:  # type: ignore[no-untyped-def]
+            h = None
+            if isinstance(n, ast.Attribute) and isinstance(n.value, ast.Name) and n.value.id in ("self", "cls") and c2 is not None:
+                inst_assigned = any(
+                    isinstance(a, (ast.Assign, ast.AnnAssign)) and any(
+                        isinstance(t, ast.Attribute) and isinstance(t.value, ast.Name) and t.value.id == "self" and t.attr == n.attr
+                        for t in (a.targets if isinstance(a, ast.Assign) else [a.target]))
+                    for a in ast.walk(f2.node))
+                if not inst_assigned:
+                    found = ctx.repo.class_attr(c2, n.attr)
+                    h = found[1] if found is not None else None
+            elif isinstance(n, ast.Attribute) and isinstance(n.value, ast.Call) and callee_name(n.value) == "type" and c2 is not None:
+                found = ctx.repo.class_attr(c2, n.attr)
+                h = found[1] if found is not None else None
+            elif isinstance(n, ast.Attribute) and isinstance(n.value, ast.Name) and c2 is not None and n.value.id == c2.name:
+                found = ctx.repo.class_attr(c2, n.attr)
+                h = found[1] if found is not None else None
+            elif isinstance(n, ast.Name) and isinstance(n.ctx, ast.Load) and n.id in f2.module.assigns:
+                h = f2.module.assigns[n.id]
+            if h is not None and (isinstance(h, (ast.Dict, ast.List, ast.Set)) or (
+                    isinstance(h, ast.Call) and callee_name(h) in ("dict", "list", "set", "defaultdict", "OrderedDict", "WeakValueDictionary"))):
+                return h
+            return None
+
+        written = []
+        for n in ast.walk(f2.node):
+            if isinstance(n, ast.Subscript) and isinstance(n.ctx, (ast.Store, ast.Del)) and holder_of(n.value) is not None:
+                written.append(n)
+            elif isinstance(n, ast.Call) and isinstance(n.func, ast.Attribute) and n.func.attr in mutators and holder_of(n.func.value) is not None:
+                written.append(n)
+        if written:
+            rr.bad(f2, written[0], f"{f2.qualname} stores into `{short(written[0])}`, a container shared by every instance of the class / module: "
+                   "an environment can be given the lexer (or parser) that was built for another assignment of the identifier spellings",
+                   construct=f"{f2.qualname.split('.')[-2]}.__init__: shared container {short(written[0], 40)}")
+        else:
+            rr.ok(f2.loc(), f"{f2.qualname} builds its parts afresh and remembers them in the instance only")
     return rr
 
 
